@@ -98,7 +98,9 @@ def dump_frame(obj):
                       for n in spec_names(obj)))
     if k == 'header':
         p = obj.properties
-        return ('header', obj.class_id, obj.weight, obj.body_size,
+        return ('header', getattr(obj, 'class_id', '<missing>'),
+                getattr(obj, 'weight', '<missing>'),
+                getattr(obj, 'body_size', '<missing>'),
                 tuple((n, canon.canon(getattr(p, n, '<missing>')))
                       for n, _, _, _ in spec_table.PROPERTIES))
     if k == 'body':
